@@ -51,6 +51,23 @@ struct Handle {
   bool forced = false;
 };
 
+FILE* gMeshTrace = nullptr;
+// record a small exported mesh for validation by Halfedge_Trace.tla
+static void TraceMesh(const Manifold& m, const MeshGL64& g) {
+  if (!gMeshTrace || g.NumTri() > 120) return;
+  json tris = json::array();
+  for (size_t t = 0; t < (size_t)g.NumTri(); t++) tris.push_back({g.triVerts[3 * t], g.triVerts[3 * t + 1], g.triVerts[3 * t + 2]});
+  bool finite = std::isfinite(g.tolerance);
+  for (auto x : g.vertProperties) finite &= std::isfinite(x);
+  for (auto x : g.halfedgeTangent) finite &= std::isfinite(x);
+  for (auto x : g.runTransform) finite &= std::isfinite(x);
+  json r = {{"tris", tris}, {"nv", (long)g.NumVert()}, {"mfrom", g.mergeFromVert}, {"mto", g.mergeToVert},
+            {"numVert", m.NumVert()}, {"numEdge", m.NumEdge()}, {"numTri", m.NumTri()}, {"genus", m.Genus()},
+            {"status", ErrName(m.Status())}, {"finite", finite}};
+  std::string str = r.dump();
+  fprintf(gMeshTrace, "%s\n", str.c_str());
+}
+
 struct Opts {
   Window w{2};
   bool eager = false, rehash = false, manifold = false, measure = false,
@@ -182,6 +199,7 @@ struct Runner {
       fail("volume", {{"h", hi}, {"when", when}, {"want", want.size()}, {"got", vol}});
     if (h[hi].nops > 0 && !want.empty()) forcedNontrivial++;
     if (o.manifold) {
+      TraceMesh(m, g);
       std::string why = Closed2Manifold(g);
       if (!why.empty()) fail("manifold", {{"h", hi}, {"when", when}, {"why", why}});
       const size_t nv = MergedVertCount(g);
@@ -541,6 +559,7 @@ int ProgMain(int argc, char** argv) {
   o.roundtrip = args.has("roundtrip");
   o.matrix = args.has("matrix");
   const long from = args.num("from", 0);
+  if (args.has("trace")) gMeshTrace = fopen(args.str("trace").c_str(), from > 0 ? "a" : "w");
   auto behs = ReadNdjson(args.pos[0]);
   Out out(args.pos[1]);
   long nfail = 0, nontrivial = 0;
@@ -552,6 +571,7 @@ int ProgMain(int argc, char** argv) {
     if (r.forcedNontrivial > 0) nontrivial++;
     out.line({{"i", i}, {"fail", r.fails}, {"nontrivial", r.forcedNontrivial}});
   }
+  if (gMeshTrace) fclose(gMeshTrace);
   out.line({{"done", true}, {"n", (long)behs.size() - from}, {"failed", nfail}, {"nontrivial", nontrivial}});
   return 0;
 }
